@@ -357,7 +357,11 @@ class GizaCategory(Generic[_I]):
         data = [self.reify(el, diagnostics, refs, set()) for el in node.data]
         node.reify_diagnostics = diagnostics
 
-        return dataclasses.replace(node, data=data)
+        # The reified copy gets its own list of parse diagnostics: the embedded rst parser
+        # appends to it while pages are generated, which must not leak into the registry.
+        return dataclasses.replace(
+            node, data=data, parse_diagnostics=list(node.parse_diagnostics)
+        )
 
     def reify_all_files(
         self,
@@ -377,7 +381,10 @@ class GizaCategory(Generic[_I]):
                 self.reify(el, diagnostics, refs_dict[file_id], set())
                 for el in node.data
             ]
-            new_node = dataclasses.replace(node, data=data)
+            # As in reify_file_id(), do not share parse_diagnostics with the registry
+            new_node = dataclasses.replace(
+                node, data=data, parse_diagnostics=list(node.parse_diagnostics)
+            )
             new_node.reify_diagnostics = diagnostics
             all_diagnostics[node.path].extend(new_node.diagnostics)
             reified_nodes[file_id] = new_node
